@@ -706,6 +706,11 @@ class ListHistory:
             elif n == "geteq":
                 # the library's answer compared (==) with the same Maybe written in the program
                 o, ot = True, BOOL
+            elif n == "popeq":
+                # the popped Maybe compared (==) with the same Maybe written in the program (None on an empty list)
+                if l:
+                    l.pop()
+                o, ot = True, BOOL
             elif n == "getcase":
                 o, ot = case_text(l[op[1]] if 0 <= op[1] < len(l) else None, 0 <= op[1] < len(l), op[2], et), STR
             elif n == "getisjust":
@@ -754,6 +759,8 @@ class ListHistory:
                 parts.append("get I%d" % op[1])
             elif n == "geteq":
                 parts.append("geteq I%d %s" % (op[1], tok(self.plain_get(op), MAYBE(et))))
+            elif n == "popeq":
+                parts.append("popeq %s" % tok(self.plain_get(op), MAYBE(et)))
             elif n == "getcase":
                 parts.append("getcase I%d %s" % (op[1], tok(op[2], et)))
             elif n in ("getisjust", "getisnone"):
@@ -791,6 +798,10 @@ class ListHistory:
             elif n == "geteq":
                 i = op[1]
                 self._geteq[id(op)] = ("Just", l[i]) if 0 <= i < len(l) else ("None",)
+            elif n == "popeq":
+                self._geteq[id(op)] = ("Just", l[-1]) if l else ("None",)
+                if l:
+                    l.pop()
             elif n == "set":
                 if 0 <= op[1] < len(l):
                     l[op[1]] = op[2]
@@ -818,6 +829,8 @@ class ListHistory:
                 e = "return list_get(l, %d)" % op[1]
             elif n == "geteq":
                 e = "return list_get(l, %d) == %s" % (op[1], lua(self.plain_get(op), MAYBE(et)))
+            elif n == "popeq":
+                e = "return list_pop(l) == %s" % lua(self.plain_get(op), MAYBE(et))
             elif n == "getcase":
                 e = lua_case("list_get(l, %d)" % op[1], op[2], et)
             elif n == "set":
@@ -853,6 +866,8 @@ class ListHistory:
                 obs = "list.get(l, %s)" % sy(op[1], INT)
             elif n == "geteq":
                 obs = "list.get(l, %s) == %s" % (sy(op[1], INT), sy(self.plain_get(op), MAYBE(et)))
+            elif n == "popeq":
+                obs = "list.pop(l) == %s" % sy(self.plain_get(op), MAYBE(et))
             elif n == "getisjust":
                 obs = "maybe.isJust(list.get(l, %s))" % sy(op[1], INT)
             elif n == "getisnone":
@@ -915,7 +930,7 @@ def gen_list_history(r, nops, et=None, strs=STRS_SAFE, preamble_only=False, nega
         names = [n for n in names if n not in ("map", "fold")]
     names = names + ["getcase", "getcase"]
     if geteq:
-        names = names + ["geteq", "geteq"]
+        names = names + ["geteq", "geteq"] + (["popeq", "popeq"] if geteq == "any" else [])
     if not preamble_only:
         names = names + ["getisjust", "getisnone", "getordefault"]
     cur_len = len(init)
@@ -931,13 +946,13 @@ def gen_list_history(r, nops, et=None, strs=STRS_SAFE, preamble_only=False, nega
             continue
         if n in ("push", "prepend"):
             cur_len += 1
-        elif n == "pop":
+        elif n in ("pop", "popeq"):
             cur_len = max(0, cur_len - 1)
         elif n == "filter":
             cur_len = 0          # unknown from here on: geteq "just" stops being generated
         if n in ("push", "prepend", "contains"):
             ops.append((n, g()))
-        elif n in ("pop", "len", "last"):
+        elif n in ("pop", "len", "last", "popeq"):
             ops.append((n,))
         elif n in ("get", "getisjust", "getisnone"):
             ops.append((n, r.choice([0, 1, 2, 3, 5, 9, -1, -2])))
